@@ -82,7 +82,7 @@ PROFILES = {
     "C08": {"quick": [SEED2, PAIRS2, SCALE, dq("mixed")], "thorough": [SEED3, CORE4, CORE3H, SCALE, dt("mixed")]},
     "C09": {"quick": [SEED2, FINAL2, CONV, dq("mixed")], "thorough": [SEED3, CORE4, FINAL2, CONV, dt("mixed")]},
     "C10": {"quick": [SEED2, dq("mixed")], "thorough": [SEED3, CORE4, dt("mixed")]},
-    "C11": {"quick": [SEED2, CORE3, FAIL2, SCALE, dq("all")], "thorough": [SEED3, CORE4, FAIL2, SIZES2, SHRINK2, SCALE, dt("all")]},
+    "C11": {"quick": [SEED2, CORE3, FAIL2, SCALE, dq("all")], "thorough": [SEED3, CORE4, FAIL2, SIZES2, SHRINK2, SCALE, PROOF, dt("all")]},
     "C12": {"quick": [SEED2, CORE3, FAIL2, SCALE, dq("all")], "thorough": [SEED3, CORE4, FAIL2, SIZES2, SHRINK2, SCALE, dt("all")]},
     "C13": {"quick": [SEED2, SHRINK2, FAIL2, dq("all")], "thorough": [SEED3, CORE4, SHRINK2, FAIL2, SIZES2, dt("all")]},
     "C14": {"quick": [CONV], "thorough": [CONV, {"kind": "sweep", "what": "u32"}, {"kind": "sweep", "what": "i32"}]},
